@@ -127,6 +127,88 @@ def insn_level(chk, exe, oracle, infos, lines, wd, tag='insn', cflags=('-O1',)):
     return bad
 
 
+# ---------------------------------------------------------------- memory-operand address forms (round 3)
+# out_op prints the address of a memory operand as a C expression built from the parts that are present: displacement,
+# base register, index register * scale.  Every combination is a separate path of the printing code, so the sweep below is
+# the full product  form {b d bd bi bid i id} x scale {1 2 4 8} x displacement class x operand position {source of a
+# move, destination of a move, second source of a binary instruction} with the memory type rotating, plus the full product
+# memory type x form x position; base-less forms (absolute addresses) in both the low and the high fixed block.
+ADDR_DISPS = [8, -8, 24, 127, 128, -128, -129, 1000, 0x7fffffff, -0x80000000, 0x80000000, -0x80000001, 0xffffffff, 1 << 32,
+              (1 << 33) + 8, -(1 << 40) + 3, (1 << 63) - 1, -(1 << 63), (1 << 63) - 8, -(1 << 63) + 16]
+ADDR_DISP_CLASSES = [[8, 24, 127, 128, 1000], [-8, -128, -129], [0x7fffffff, 0x80000000, 0xffffffff, 1 << 32, (1 << 33) + 8],
+                     [-0x80000000, -0x80000001, -(1 << 40) + 3], [(1 << 63) - 1, (1 << 63) - 8], [-(1 << 63), -(1 << 63) + 16]]
+ADDR_INDEXES = [0, 1, -1, 3, -5, 1000, 0x7fffffff, -0x80000000, 1 << 32, (1 << 61) + 1, -(1 << 61), 3 * (1 << 61) - 7]
+ALL_MEM_TYPES = G.MEM_INT_TYPES + ['f', 'd', 'ld']
+TYPE_KIND = {'f': 'f', 'd': 'd', 'ld': 'l'}
+KIND_OPS = {'i': ('MOV', ['ADD', 'SUB', 'XOR', 'ULT', 'MULS']), 'f': ('FMOV', ['FADD', 'FLT']), 'd': ('DMOV', ['DSUB', 'DGE']),
+            'l': ('LDMOV', ['LDADD', 'LDEQ'])}
+
+
+def address_form_lines(chk, infos, quick):
+    rng = chk.rng('addrforms')
+    byname = {i.name: i for i in infos}
+    lines = []
+
+    def memtext(ty, form, scale, disp, val):
+        index = rng.choice(ADDR_INDEXES) if 'i' in form else 0
+        return 'm%s,%s,%d,%d,%d:%x' % (ty, form, scale, disp if 'd' in form else 0, index, val & ((1 << (8 * G.TYPE_SIZE[ty])) - 1))
+
+    def add(ty, form, scale, disp, pos, hi):
+        kind = TYPE_KIND.get(ty, 'i')
+        mov, bins = KIND_OPS[kind]
+        cid = 'A%d' % len(lines)
+        v = G.rand_val(kind, rng)
+        if pos == 'x':
+            l = G.gen_case(byname[mov], rng, cid, vals=[v], shapes=['m'], dst='r', c20=True, optexts=[memtext(ty, form, scale, disp, v)], press=0)
+        elif pos == 'dst':
+            l = G.gen_case(byname[mov], rng, cid, vals=[v], shapes=['r'], dst=memtext(ty, form, scale, disp, 0).rsplit(':', 1)[0], c20=True, press=0)
+        else:
+            info = byname[rng.choice(bins)]
+            a = G.rand_val(kind, rng)
+            if rng.random() < 0.25:      # both sources in memory, each with its own form
+                f2 = rng.choice(G.FORMS)
+                xt = memtext(ty, f2, rng.choice([1, 2, 4, 8]), rng.choice(ADDR_DISPS), a)
+                shapes = ['m', 'm']
+            else:
+                xt, shapes = 'r:%x' % a, ['r', 'm']
+            l = G.gen_case(info, rng, cid, vals=[a, v], shapes=shapes, dst='r', c20=True, optexts=[xt, memtext(ty, form, scale, disp, v)], press=0,
+                           far=False)
+        l = l.replace(' hiblk=1', '') + (' hiblk=1' if hi else '')
+        chk.dist('address_forms', '%s*%d' % (form, scale) if 'i' in form else form)
+        chk.dist('address_positions', pos)
+        chk.dist('address_types', ty)
+        lines.append(l)
+
+    k = 0
+    for form in G.FORMS:
+        for scale in ([1, 2, 4, 8] if 'i' in form else [1]):
+            if 'd' in form and form != 'd':
+                disps = [rng.choice(c) for c in ADDR_DISP_CLASSES] if quick else ADDR_DISPS
+            else:
+                disps = [0]
+            for disp in disps:
+                for pos in ('x', 'dst', 'y'):
+                    for hi in ((0, 1) if 'b' not in form else (0,)):
+                        for _ in range(1 if quick else 3):
+                            add(ALL_MEM_TYPES[k % len(ALL_MEM_TYPES)], form, scale, disp, pos, hi)
+                            k += 5          # coprime with the number of types: every type comes up in every neighbourhood
+    for ty in ALL_MEM_TYPES:
+        for form in G.FORMS:
+            for pos in ('x', 'dst', 'y'):
+                add(ty, form, rng.choice([1, 2, 4, 8]), rng.choice(ADDR_DISPS), pos, rng.random() < 0.5 and 'b' not in form)
+    return lines
+
+
+def memory_form_census(chk, lines):
+    """what the whole instruction-level batch (random shapes + sweep) exercises: form x scale of every memory operand"""
+    for l in lines:
+        for m in re.finditer(r'\bm(\w+),([bid]+),(\d),(-?\d+),', l):
+            form, scale, disp = m.group(2), m.group(3), int(m.group(4))
+            chk.dist('memory_operand_forms', (form + '*' + scale) if 'i' in form else form)
+            if 'd' in form and form != 'd':
+                chk.dist('memory_operand_disp', 'negative' if disp < 0 else 'beyond-32-bits' if disp >= 1 << 31 else 'small')
+
+
 def report(chk, bad, limit=14):
     seen = set()
     perclass = {}
@@ -175,6 +257,8 @@ def run(chk):
         if os.path.exists(corpus):
             lines += [l.strip() for l in open(corpus) if l.strip() and not l.startswith('#')]
         lines += c02.generate(chk, infos, quick, c20=True)
+        lines += address_form_lines(chk, infos, quick)
+        memory_form_census(chk, lines)
         chk.cov['rule'] = ('(a) one/two-instruction MIR functions in every operand shape -> mir2c -> gcc -> dlopen -> run, result compared with the '
                           'extracted DocSpec on the defined bits; (b) generated single-result modules -> mir2c -> gcc -> run vs MIR_interp '
                           '(results + external call trace); distinct by case text')
